@@ -108,20 +108,22 @@ def cls(v):
 def probe(api, ctx, baseline, ptr, inv=False):
     gg = cls(ctx.get("g"))
     fg = cls(ctx.get("f"))
-    out = api.run(lambda: ctx.eval("__p()"), tick=TICK, cap=20000, wall=60.0)
-    if out["o"] == "value" and isinstance(out["pv"], list) and len(out["pv"]) == NPROBE:
-        p = [cls(x) for x in out["pv"]]
+    # family I: the marker on the inventory target of this history is read through its access path in the same evaluation
+    out = api.run(lambda: ctx.eval("[__p(), __q()]" if inv else "[__p(), 0]"), tick=TICK, cap=20000, wall=60.0)
+    pv = out.get("pv")
+    if (out["o"] == "value" and isinstance(pv, list) and len(pv) == 2 and isinstance(pv[0], list)
+            and len(pv[0]) == NPROBE):
+        p = [cls(x) for x in pv[0]]
+        q = cls(pv[1])
     else:
         p = [-1] * NPROBE       # the context is not usable: a mismatch, judged by the specification
+        q = -1
     extra = len([n for n in ctx._globals if n not in baseline and n not in ("g", "f")])
-    q = 0
-    if inv:          # family I: the marker on the inventory target of this history, read through its access path
-        out = api.run(lambda: ctx.eval("__q()"), tick=TICK, cap=20000, wall=60.0)
-        q = cls(out["pv"]) if out["o"] == "value" else -1
     return [gg, p[0], p[1], fg, p[2], p[3]] + p[4:9] + [ptr, extra] + p[9:11] + [q]
 
 
 _PROBE_FN = []
+_TARGET_FN = {}        # (object expression, property) -> compiled reader of the marker, one per child process
 
 
 def new_ctx(api, lim, target=None):
@@ -143,7 +145,17 @@ def new_ctx(api, lim, target=None):
     ctx.set("__re", lambda n: (ctx.eval("var g = %d" % int(n)), None)[1])
     ctx.set("__ptr", lambda: 0 if ctx._current_vm is None else 1)
     if target is not None:
-        ctx.eval("function __q(){ return %s }" % read_expr(*target))
+        if target not in _TARGET_FN:
+            scratch = api.Context()
+            scratch.eval("function __q(){ return %s }" % read_expr(*target))
+            fn = scratch._globals["__q"]
+            chk = api.Context()
+            chk.set("__q", fn)
+            chk.eval("%s.%s = 7" % target)
+            if chk.eval("__q()") != 7 or scratch.eval("__q()") != 0:
+                raise RuntimeError("marker reader for %s.%s does not work when shared between contexts" % target)
+            _TARGET_FN[target] = fn
+        ctx.set("__q", _TARGET_FN[target])
     return ctx, frozenset(ctx._globals)
 
 
